@@ -255,6 +255,10 @@ def run(ctx):
                                                "shapes": [list(a.shape), list(b.shape)]})
                 # refusals
                 for what, call in (("both-time-and-multi_time", lambda: f(Xq, time=1.0, multi_time=[0.0, 1.0], **kw)),
+                                   # a time that is "falsy" (0, 0.0, a one-element array holding 0) is still a time
+                                   ("both-time-zero-and-multi_time", lambda: f(Xq, time=0, multi_time=[0.0, 1.0], **kw)),
+                                   ("both-time-0.0-and-multi_time", lambda: f(Xq, time=0.0, multi_time=[0.0, 1.0], **kw)),
+                                   ("both-time-array0-and-multi_time", lambda: f(Xq, time=np.asarray([0.0]), multi_time=[0.0, 1.0], **kw)),
                                    ("wrong-length", lambda: f(Xq, np.asarray([0.0, 1.0, 2.0]), **kw)),
                                    ("wrong-features", lambda: f(np.concatenate([Xq, Xq], axis=1), tq, **kw)),
                                    ("wrong-features-column-form", lambda: f(np.concatenate([Xqt, Xq], axis=1), **kw)),
